@@ -18,5 +18,6 @@ MC_MaxExtra == 1
 MC_ListOrders == {"asc","desc"}
 MC_EMIT == TRUE
 MC_BatchAtEnd == FALSE
+MC_CoordPkps == {"current"}
 
 ====
